@@ -92,6 +92,9 @@ FIXED = [
     # r5 = 2.1.2 is itself a merge (of 2.2.1 = r4) on a side branch, and the mainline below its
     # branch point contains another merge (r2 merges r1): depths from r5 read 1, 2, 1, 0, 1, 0
     [[], [0], [0, 1], [2], [2], [3, 4], [2], [6, 5]],
+    # a branch of a branch: r2-r3-r6 = 1.2.1-1.2.3 is merged by the tip, r4-r5 = 1.3.1, 1.3.2 forked
+    # from 1.2.2 (r3) and were merged back by 1.2.3; r1 = 1.1.1 merged by r7 = 2
+    [[], [0], [0], [2], [3], [4], [3, 5], [0, 1], [7, 6]],
 ]
 
 
